@@ -15,6 +15,7 @@ import (
 
 	"github.com/hashicorp/go-msgpack/v2/codec"
 	"github.com/hashicorp/serf/cmd/serf/command/agent"
+	"github.com/hashicorp/serf/serf"
 	"pgregory.net/rapid"
 
 	"verif/internal/vkit"
@@ -57,6 +58,12 @@ type c30Case struct {
 	File  bool      `json:"file"`
 	Init  []c30KV   `json:"init"`
 	Edits []c30Edit `json:"edits"`
+	// Peer: the agent's memberlist knows one more alive member (learnt from an
+	// alive packet the harness injects) and waits at most BcastNs for the
+	// update broadcast, which never goes out on the quiet network: Serf then
+	// reports an edit as failed AFTER the tags took effect
+	Peer    bool  `json:"peer,omitempty"`
+	BcastNs int64 `json:"bcast_ns,omitempty"`
 	// EmptyFile: what the tags file holds at the first start when there are no
 	// initial tags: 0 no file, 1 "{}", 2 "null", 3 "{}" plus a newline
 	EmptyFile int `json:"empty_file,omitempty"`
@@ -123,6 +130,10 @@ func genC30(t *rapid.T) c30Case {
 		e.Rep = rapid.SampledFrom([]int{0, 0, 1, 2}).Draw(t, "rep")
 		e.Restart = c.File && i > 0 && rapid.IntRange(0, 5).Draw(t, "restart") == 0
 		c.Edits = append(c.Edits, e)
+	}
+	if rapid.IntRange(0, 3).Draw(t, "peer") == 0 {
+		c.Peer = true
+		c.BcastNs = rapid.SampledFrom([]int64{1, 1000, 100_000, 1_000_000}).Draw(t, "bcast")
 	}
 	if c.File && len(c.Init) == 0 {
 		c.EmptyFile = rapid.IntRange(0, 3).Draw(t, "emptyfile")
@@ -222,6 +233,16 @@ func c30Advertised(meta []byte) (map[string]string, error) {
 	return tags, nil
 }
 
+// c30Alive is memberlist's alive message (wire names).
+type c30Alive struct {
+	Incarnation uint32
+	Node        string
+	Addr        []byte
+	Port        uint16
+	Meta        []byte
+	Vsn         []uint8
+}
+
 func bodyC30(c c30Case, x *vkit.Ctx) {
 	dir, err := os.MkdirTemp("", "c30-")
 	if err != nil {
@@ -252,6 +273,11 @@ func bodyC30(c c30Case, x *vkit.Ctx) {
 	} else {
 		o.Tags = c30Copy(init)
 		x.Label("no-tags-file")
+	}
+	if c.Peer {
+		bt := time.Duration(min(max(c.BcastNs, 1), int64(time.Millisecond)))
+		o.MutateSerf = func(conf *serf.Config) { conf.BroadcastTimeout = bt }
+		x.Label("peer-known")
 	}
 	var r *rig
 	var cl *rawClient
@@ -294,6 +320,22 @@ func bodyC30(c c30Case, x *vkit.Ctx) {
 			x.Inconclusive("rig: " + err.Error())
 			return false
 		}
+		if c.Peer {
+			// one more member, as memberlist learns it from the network
+			var b []byte
+			if err := codec.NewEncoderBytes(&b, &codec.MsgpackHandle{}).Encode(c30Alive{Incarnation: 1, Node: "peer0", Addr: []byte{10, 1, 0, 1}, Port: 7946, Vsn: []uint8{1, 5, 2, 2, 5, 4}}); err != nil {
+				x.Inconclusive("encode alive: " + err.Error())
+				return false
+			}
+			r.tr.Inject("10.1.0.1:7946", append([]byte{4}, b...))
+			for dl := time.Now().Add(5 * time.Second); r.agent.Serf().Memberlist().NumMembers() != 2; {
+				if time.Now().After(dl) {
+					x.Inconclusive("memberlist did not take the injected member")
+					return false
+				}
+				time.Sleep(200 * time.Microsecond)
+			}
+		}
 		if cl, err = dialRaw(r.addr()); err != nil {
 			x.Inconclusive("dial: " + err.Error())
 			return false
@@ -325,7 +367,8 @@ func bodyC30(c c30Case, x *vkit.Ctx) {
 		}
 		return true
 	}
-	reloadCheck := func(step string, eff map[string]string, afterReject bool) bool {
+	reloadCheck := func(step string, eff map[string]string, outcome string) bool {
+		afterReject := outcome == "rejected"
 		if !c.File {
 			return true
 		}
@@ -343,6 +386,9 @@ func bodyC30(c c30Case, x *vkit.Ctx) {
 			if afterReject {
 				sig = "file-differs-after-rejected-edit"
 			}
+			if outcome == "applied-but-reported-failed" {
+				sig = "file-differs-after-applied-edit-reported-failed"
+			}
 			if step == "start" {
 				sig = "file-differs-at-start"
 			}
@@ -356,11 +402,11 @@ func bodyC30(c c30Case, x *vkit.Ctx) {
 		x.Violationf("initial-tags-differ", "configured initial tags %s, in effect %s", c30Show(init), c30Show(eff))
 		return
 	}
-	if !advertisedCheck("start", init) || !reloadCheck("start", init, false) {
+	if !advertisedCheck("start", init) || !reloadCheck("start", init, "start") {
 		return
 	}
 
-	rejected, accepted, both, rejectedWithFile, nearLimit := 0, 0, 0, 0, 0
+	rejected, accepted, both, rejectedWithFile, nearLimit, appliedButFailed := 0, 0, 0, 0, 0, 0
 	for i, e := range c.Edits {
 		before := effective()
 		if e.Restart && c.File {
@@ -482,7 +528,9 @@ func bodyC30(c c30Case, x *vkit.Ctx) {
 		if size > c30MetaLimit-16 && size <= c30MetaLimit+16 {
 			nearLimit++
 		}
+		outcome := "rejected"
 		if reply == "" {
+			outcome = "accepted"
 			accepted++
 			if !c30Equal(after, expected) {
 				sig := "edit-result-differs"
@@ -496,6 +544,15 @@ func bodyC30(c c30Case, x *vkit.Ctx) {
 				x.Violationf("oversize-accepted", "%s accepted but the advertised metadata is %d bytes", step, len(meta))
 				return
 			}
+		} else if c.Peer && size >= 0 && size <= c30MetaLimit && c30Equal(after, expected) {
+			// Another member is alive and the update broadcast was not confirmed
+			// in time: Serf applied the edit and reported a failure. The reply is
+			// not judged; the result must be the documented one (it is), and
+			// below, as always, the node must advertise and the next start must
+			// load exactly the tags now in effect.
+			appliedButFailed++
+			outcome = "applied-but-reported-failed"
+			x.Label("edit-applied-but-reported-failed")
 		} else {
 			rejected++
 			if c.File {
@@ -508,6 +565,13 @@ func bodyC30(c c30Case, x *vkit.Ctx) {
 			small := 0
 			for k, v := range expected {
 				small += len(k) + len(v) + 6
+			}
+			if c.Peer && size >= 0 && size <= c30MetaLimit {
+				// with another member alive an edit may fail for want of a
+				// confirmed broadcast; left unapplied (tags unchanged, checked
+				// above) that is a legitimate failure
+				small = 1 << 20
+				size = -1
 			}
 			if small < 256 {
 				x.Violationf("small-edit-rejected", "%s answered %q although the resulting tags %s are tiny", step, reply, c30Show(expected))
@@ -523,7 +587,7 @@ func bodyC30(c c30Case, x *vkit.Ctx) {
 		if !advertisedCheck(step+fmt.Sprintf(" answered %q", reply), after) {
 			return
 		}
-		if !reloadCheck(step+fmt.Sprintf(" answered %q", reply), after, reply != "") {
+		if !reloadCheck(step+fmt.Sprintf(" answered %q", reply), after, outcome) {
 			return
 		}
 	}
